@@ -29,7 +29,16 @@ Cap == [
   mask4 |-> "len32", mask6 |-> "len128",
   fproto |-> "b1", fport |-> "b2", fdport |-> "b2", fitype |-> "b1", ficode |-> "b1", fdscp |-> "bits6", ftclass |-> "b1", fplen |-> "b2", flabel |-> "bits20",
   fmask |-> "len32", fmark |-> "bits6", fredirlocal |-> "b4",
-  vep |-> "b2", vbase |-> "bits20", voff |-> "b2", vsize |-> "b2" ]
+  vep |-> "b2", vbase |-> "bits20", voff |-> "b2", vsize |-> "b2",
+  \* one octet of a dotted IPv4 address, wherever the grammar takes one
+  nhoct |-> "b1", pfxoct |-> "b1", origoct |-> "b1", clusteroct |-> "b1", aggroct |-> "b1", rd1oct |-> "b1", rtipoct |-> "b1", pathidoct |-> "b1",
+  vnhoct |-> "b1", fdstoct |-> "b1",
+  \* shapes: a lone number where the grammar wants <x>:<y> or an address.  Whether such a text means anything is the parser's
+  \* business (Shape rows demand neither acceptance nor refusal) -- but it is answered, never an unhandled exception, and what
+  \* is accepted can be encoded
+  rdplain |-> "b4", vrdplain |-> "b4", frdplain |-> "b4", aggrplain |-> "b4", rtplain |-> "b4", largetwo |-> "b4", nhnum |-> "b4" ]
+Shape == {"rdplain", "vrdplain", "frdplain", "aggrplain", "rtplain", "largetwo", "nhnum"}
+Free(r) == r.field \in Shape
 Fields == DOMAIN Cap
 \* the in-range value used as "low" for each field (small, so that TLC can do arithmetic on it)
 Low == [f \in Fields |->
@@ -102,6 +111,16 @@ Frag(r, s) ==
     [] f = "voff"     -> <<0, 17>> \o RD0 \o U16(5) \o V2(f, v) \o U16(8) \o Lbl(100, 1)
     [] f = "vsize"    -> <<0, 17>> \o RD0 \o U16(5) \o U16(1) \o V2(f, v) \o Lbl(100, 1)
     [] f = "vbase"    -> <<0, 17>> \o RD0 \o U16(5) \o U16(1) \o U16(1) \o Lbl(L20(f, v), 1)      \* a block of one label
+    [] f = "nhoct"    -> <<64, 3, 4, 1, 2, 3>> \o V1(f, v)
+    [] f = "pfxoct"   -> <<24, 10, 0>> \o V1(f, v)
+    [] f = "origoct"  -> IF s = "i4" THEN <<128, 9, 4, 10, 0, 0>> \o V1(f, v) ELSE <<>>
+    [] f = "clusteroct" -> IF s = "i4" THEN <<128, 10, 4, 10, 0, 0>> \o V1(f, v) ELSE <<>>
+    [] f = "aggroct"  -> IF Asn4(s) THEN <<192, 7, 8, 0, 0, 253, 232, 1, 2, 3>> \o V1(f, v) ELSE <<192, 7, 6, 253, 232, 1, 2, 3>> \o V1(f, v)
+    [] f = "rd1oct"   -> <<0, 1, 1, 2, 3>> \o V1(f, v) \o <<0, 5>>
+    [] f = "rtipoct"  -> <<192, 16, 8, 1, 2, 1, 2, 3>> \o V1(f, v) \o <<0, 5>>
+    [] f = "pathidoct" -> IF s = "e4" THEN <<1, 2, 3>> \o V1(f, v) \o <<24, 10, 0, 0>> ELSE <<>>
+    [] f = "vnhoct"   -> <<0, 25, 65, 4, 1, 2, 3>> \o V1(f, v)                               \* MP_REACH_NLRI: AFI 25, SAFI 65, next hop of 4 bytes
+    [] f = "fdstoct"  -> <<1, 24, 10, 0>> \o V1(f, v)                                        \* RFC 8955 type 1, /24
     [] OTHER -> <<>>
 
 Contains(w, e) == e = <<>> \/ \E i \in 1..(Len(w) - Len(e) + 1) : SubSeq(w, i, i + Len(e) - 1) = e
